@@ -284,3 +284,68 @@ def substitute(t, mapping, memo=None):
             else:
                 memo[x.id] = mk(x.op, x.ty, *na)
     return memo[t.id]
+
+
+def arg_sets(t):
+    """node id -> frozenset of free argument names (bottom-up)"""
+    fs = {}
+    for x in walk(t):
+        if x.op == 'arg':
+            fs[x.id] = frozenset([x.args[0]])
+        else:
+            s = frozenset()
+            for a in x.args:
+                if isinstance(a, T):
+                    s = s | fs[a.id]
+            fs[x.id] = s
+    return fs
+
+
+def maximal_single_input(t, want_int=True):
+    """maximal proper-or-improper subterms that depend on exactly one free argument (and are not the bare
+    argument); returns list of nodes"""
+    fs = arg_sets(t)
+    out = []
+    seen = set()
+    stack = [t]
+    while stack:
+        x = stack.pop()
+        if not isinstance(x, T) or x.id in seen:
+            continue
+        seen.add(x.id)
+        if len(fs[x.id]) == 1 and x.op != 'arg' and (not want_int or not is_f(x.ty)):
+            out.append(x)
+            continue
+        for a in x.args:
+            if isinstance(a, T):
+                stack.append(a)
+    return out
+
+
+def replace_nodes(t, mapping):
+    """rebuild t with nodes (by id) replaced: mapping node id -> term"""
+    memo = {}
+    order = []
+    seen = set()
+    stack = [(t, False)]
+    while stack:
+        x, done = stack.pop()
+        if not isinstance(x, T):
+            continue
+        if done:
+            order.append(x)
+            continue
+        if x.id in seen:
+            continue
+        seen.add(x.id)
+        if x.id in mapping:
+            memo[x.id] = mapping[x.id]
+            continue
+        stack.append((x, True))
+        for a in x.args:
+            if isinstance(a, T):
+                stack.append((a, False))
+    for x in order:
+        na = tuple(memo[a.id] if isinstance(a, T) else a for a in x.args)
+        memo[x.id] = x if all(p is q for p, q in zip(na, x.args)) else mk(x.op, x.ty, *na)
+    return memo[t.id]
